@@ -4,7 +4,7 @@
 // (requires) no normal return is possible (ensures false).  The value-level units (ratio_ops, ratio_int_ops, ratio_rem,
 // ratio_inv, ratio_inv_fwd) have "divisor != 0" as a precondition and leave this clause open.
 // The arms are instantiated for the by-value forwarding (a, b, c, d / i owned, ra.. the references the forwarding macro takes
-// to them); the three by-reference forwardings of `/` are instantiated in unit ratio_ops_ref.
+// to them); the by-reference forwardings are instantiated in unit ratio_zero_panic_ref.
 // Where the arm has its own guard the panic is `panic_divide_by_0()` (TRUSTED never to return: its body is `panic!`); the
 // `%`, rem_euclid and div_rem_euclid arms have no guard: the zero divisor reaches IBig::rem / rem_euclid / div_rem_euclid,
 // whose must_panic stub contracts (lib/rp_stubs.rs, `requires rhs.v() == 0 ensures false`) are TRUSTED here and are the
